@@ -20,7 +20,7 @@ PROP = "C05"
 LEVEL = "exploration"
 
 OTHER_NAMES = ("CCSDS_VER", "CCSDS_TYPE", "CCSDS_SHF", "APP_ID", "GRP_FLAGS", "SSC", "LENGTH")
-N_CRIT = 11
+N_CRIT = 12
 
 
 def criterion(k, apid):
@@ -44,6 +44,8 @@ def criterion(k, apid):
         # a discriminator whose Python type varies from packet to packet: XSEL (raw 2) is a float 2.0 in APID-0 packets, which come first (a context calibrator
         # applies) and a plain int 2 otherwise; it never equals 3
         (Cmp("XSEL", "==", "3"),),
+        # a boolean discriminator (one bit) against the text "0": the flag is clear
+        (Cmp("BF", "==", "0"),),
     ][k]
 
 
@@ -57,10 +59,10 @@ def make_doc(n, parents, crits, abstract_bits, nest, children_first, other_names
     names = OTHER_NAMES if other_names else HEADER_NAMES
     apid = names[3]
     pts = list(header_ptypes()) + [PType("SEL_T", "Integer", IntEnc(2)), PType("P6_T", "Integer", IntEnc(6)), PType("M_T", "Integer", IntEnc(8)),
-                                   PType("CSEL_T", "Integer", IntEnc(2, default_cal=Poly(((2.0, 1),)))), PType("P4_T", "Integer", IntEnc(2)),
+                                   PType("CSEL_T", "Integer", IntEnc(2, default_cal=Poly(((2.0, 1),)))), PType("P4_T", "Integer", IntEnc(1)), PType("BF_T", "Boolean", IntEnc(1)),
                                    PType("XSEL_T", "Integer", IntEnc(2, ctx_cals=(CtxCal((Cmp(apid, "==", "0"),), Poly(((1.0, 1),))),))),
                                    PType("TAG_T", "String", StrEnc(Fixed(16), "US-ASCII"))]
-    prs = list(header_params(names)) + [Param("SEL", "SEL_T"), Param("CSEL", "CSEL_T"), Param("XSEL", "XSEL_T"), Param("P6", "P4_T"), Param("TAG", "TAG_T")] + [Param(f"M{i}", "M_T") for i in range(1, n)] + [Param("NM", "M_T"), Param("TAILM", "M_T"), Param("LM", "M_T"), Param("RM", "M_T")]
+    prs = list(header_params(names)) + [Param("SEL", "SEL_T"), Param("CSEL", "CSEL_T"), Param("XSEL", "XSEL_T"), Param("BF", "BF_T"), Param("P6", "P4_T"), Param("TAG", "TAG_T")] + [Param(f"M{i}", "M_T") for i in range(1, n)] + [Param("NM", "M_T"), Param("TAILM", "M_T"), Param("LM", "M_T"), Param("RM", "M_T")]
     cnames = [root_name] + [f"C{i}" for i in range(1, n)]
     if other_names and n >= 2:
         # the last container (a leaf: nothing is based on it) carries a name that is falsy or looks like a constant when taken for one
@@ -68,7 +70,7 @@ def make_doc(n, parents, crits, abstract_bits, nest, children_first, other_names
     conts = []
     for i in range(n):
         if i == 0:
-            entries = list(header_entries(names)) + [("p", "SEL"), ("p", "CSEL"), ("p", "XSEL"), ("p", "P6"), ("p", "TAG")]
+            entries = list(header_entries(names)) + [("p", "SEL"), ("p", "CSEL"), ("p", "XSEL"), ("p", "BF"), ("p", "P6"), ("p", "TAG")]
         else:
             entries = [("p", f"M{i}")]
         if nest == 1:
@@ -89,7 +91,7 @@ def make_doc(n, parents, crits, abstract_bits, nest, children_first, other_names
         elif nest == 2:
             # nested container inside the root, between header and SEL
             if i == 0:
-                entries = list(header_entries(names)) + [("c", "NEST"), ("p", "SEL"), ("p", "CSEL"), ("p", "XSEL"), ("p", "P6"), ("p", "TAG")]
+                entries = list(header_entries(names)) + [("c", "NEST"), ("p", "SEL"), ("p", "CSEL"), ("p", "XSEL"), ("p", "BF"), ("p", "P6"), ("p", "TAG")]
         base = None if i == 0 else cnames[parents[i - 1]]
         crit = None if i == 0 else criterion(crits[i - 1], apid)
         conts.append(Container(cnames[i], tuple(entries), base=base, criteria=crit, abstract=bool(abstract_bits >> i & 1),
@@ -112,7 +114,7 @@ def packets():
     out = []
     for apid in range(4):
         for sel in range(4):
-            payload = format(sel, "02b") + format((sel + apid) % 4, "02b") + "1010" + "".join(format(ord(ch), "08b") for ch in ("HK", "H ", " K", "  ")[apid]) + "".join(format(0x10 * (k + 1) + sel, "08b") for k in range(9))
+            payload = format(sel, "02b") + format((sel + apid) % 4, "02b") + "10" + str((sel ^ apid) & 1) + "0" + "".join(format(ord(ch), "08b") for ch in ("HK", "H ", " K", "  ")[apid]) + "".join(format(0x10 * (k + 1) + sel, "08b") for k in range(9))
             out.append(docs.packet_for(apid, payload, seqcount=apid * 4 + sel))
     return out
 
@@ -278,7 +280,7 @@ def run(ctx):
     coverage = {
         "programs": tally.programs,
         "exhaustive": True,
-        "bound": (f"all parent vectors with <= {3 if ctx.quick else 4} containers x 11 criteria per child edge (APID==1, APID==2, APID!=1, SEL<2, two-comparison list, "
+        "bound": (f"all parent vectors with <= {3 if ctx.quick else 4} containers x 12 criteria per child edge (a boolean flag against the text "0", APID==1, APID==2, APID!=1, SEL<2, two-comparison list, "
                   "boolean expression, no RestrictionCriteria, two-parameter condition with mixed raw/calibrated selectors, nested AND/OR groups, a text discriminator with a significant trailing blank, a discriminator that is a float in some packets and an int in others) x abstract flag per node x nesting {none, shared nested container referenced from two nodes, nested "
                   "inside the root, double reference, diamond, a stand-alone container listed first that embeds the root} x document order {parents first, children first} x header naming {conventional, other}; packets APID 0..3 x SEL 0..3; "
                   "parse_ccsds_packet and the generator with and without error reporting; every 11th document also built from objects; "
